@@ -59,9 +59,10 @@ import (
 )
 
 var (
-	errRequestHostRequired = errs.NewPublic("missing required Host header in request")
-	errGetOnly             = errs.NewPublic("non-GET request received")
-	errBodyTooLarge        = errs.New(errs.ErrBodyTooLarge, errs.ErrorTypePublic, "http1/req")
+	errRequestHostRequired    = errs.NewPublic("missing required Host header in request")
+	errRequestTargetLineBreak = errs.NewPublic("line break in the request target")
+	errGetOnly                = errs.NewPublic("non-GET request received")
+	errBodyTooLarge           = errs.New(errs.ErrBodyTooLarge, errs.ErrorTypePublic, "http1/req")
 )
 
 type h1Request struct {
@@ -186,6 +187,10 @@ func write(req *protocol.Request, w network.Writer, usingProxy bool) error {
 			}
 		}
 
+		if bytes.IndexByte(ruri, '\n') >= 0 || bytes.IndexByte(ruri, '\r') >= 0 {
+			// the host part comes from the Host header / URI.SetHost unfiltered: never let it break the request line
+			return errRequestTargetLineBreak
+		}
 		req.Header.SetRequestURIBytes(ruri)
 
 		if len(uri.Username()) > 0 {
